@@ -114,7 +114,7 @@ theorem peers_of_sorted_key (key : Nat → Nat) (p : List Nat) (hs : p.Pairwise 
     simp only [beq_iff_eq] at h ⊢
     have hp := List.Pairwise.sublist hsub hs
     simp only [List.pairwise_cons, List.mem_cons, List.not_mem_nil, or_false, forall_eq_or_imp, forall_eq,
-      List.Pairwise.nil, and_true, implies_true] at hp
+      List.Pairwise.nil, and_true] at hp
     omega
 
 /-- more generally: a partition sorted by ANY strict weak order `lt` (the ORDER BY comparison), with
@@ -138,7 +138,7 @@ theorem peers_of_sorted (lt eqv : Nat → Nat → Bool) (p : List Nat)
   · intro y z x hsub h
     have hp := List.Pairwise.sublist hsub hs
     simp only [List.pairwise_cons, List.mem_cons, List.not_mem_nil, or_false, forall_eq_or_imp, forall_eq,
-      List.Pairwise.nil, and_true, implies_true] at hp
+      List.Pairwise.nil, and_true] at hp
     rw [heqv] at h ⊢
     simp only [Bool.and_eq_true, Bool.not_eq_eq_eq_not, Bool.not_true] at h ⊢
     refine ⟨?_, hp.1.1⟩
@@ -227,7 +227,7 @@ theorem ntile_bucket_sizes (q r b : Nat) :
   rw [tileStart_succ]; omega
 
 /-- a row's bucket is determined by its position -/
-theorem ntile_bucket_unique (q r : Nat) (hq : 1 ≤ q) (j b b' : Nat)
+theorem ntile_bucket_unique (q r : Nat) (j b b' : Nat)
     (h1 : tileStart q r b ≤ j) (h2 : j < tileStart q r (b + 1))
     (h1' : tileStart q r b' ≤ j) (h2' : j < tileStart q r (b' + 1)) : b = b' := by
   rcases Nat.lt_trichotomy b b' with h | h | h
